@@ -172,17 +172,43 @@ class Normaliser:
             if isinstance(e, ast.Starred):
                 return names_of_display(e.value)
             return []
+        # a display `c = (x, y)` makes a new object *holding* x and y; only when elements are taken out of c again (iteration, subscript,
+        # unpacking) can a mutation through what was taken out reach x or y
+        taken_apart = set()
+        for n in ast.walk(fn):
+            if isinstance(n, (ast.For, ast.comprehension)) and isinstance(n.iter, ast.Name):
+                taken_apart.add(n.iter.id)
+            elif isinstance(n, ast.Subscript) and isinstance(n.value, ast.Name):
+                taken_apart.add(n.value.id)
+            elif isinstance(n, ast.Starred) and isinstance(n.value, ast.Name):
+                taken_apart.add(n.value.id)
+            elif isinstance(n, ast.Assign) and isinstance(n.value, ast.Name) and any(isinstance(t, (ast.Tuple, ast.List)) for t in n.targets):
+                taken_apart.add(n.value.id)
         for n in ast.walk(fn):
             if isinstance(n, ast.Assign):
                 tn = [nm for t in n.targets for nm in names_of_display(t)]
                 for a_, b_ in zip(tn, tn[1:]):
                     if len(n.targets) > 1:
                         link(a_, b_)
-                vn = names_of_display(n.value)
-                for t in n.targets:
-                    for a_ in names_of_display(t):
-                        for b_ in vn:
-                            link(a_, b_)
+                if isinstance(n.value, ast.Name):
+                    for a_ in tn:
+                        link(a_, n.value.id)
+                else:
+                    vn = names_of_display(n.value)
+                    for t in n.targets:
+                        if isinstance(t, ast.Name):
+                            if t.id in taken_apart or isinstance(n.value, (ast.IfExp, ast.BoolOp)):
+                                for b_ in vn:
+                                    link(t.id, b_)
+                        elif isinstance(t, (ast.Tuple, ast.List)) and isinstance(n.value, (ast.Tuple, ast.List)) and len(t.elts) == len(n.value.elts):
+                            for te, ve in zip(t.elts, n.value.elts):
+                                for a_ in names_of_display(te):
+                                    for b_ in names_of_display(ve):
+                                        link(a_, b_)
+                        else:
+                            for a_ in names_of_display(t):
+                                for b_ in vn:
+                                    link(a_, b_)
             elif isinstance(n, (ast.For, ast.comprehension)):
                 for a_ in names_of_display(n.target):
                     for b_ in names_of_display(n.iter):
